@@ -1,0 +1,37 @@
+//go:build verif
+
+// Verification accessors (add-only, compiled only with -tags verif).  They expose
+// counters that lifecycle/buffering checks audit after every step; they change no
+// behaviour.
+
+package tcpassembly
+
+import "github.com/gopacket/gopacket"
+
+// VerifConnCount returns the number of live connections in the pool.
+func (p *StreamPool) VerifConnCount() int {
+	p.mu.RLock()
+	defer p.mu.RUnlock()
+	return len(p.conns)
+}
+
+// VerifConnPagesOf returns, for the live connection with the given flows, its
+// page counter and the number of pages actually linked into its list.
+func (p *StreamPool) VerifConnPagesOf(netFlow, tcpFlow gopacket.Flow) (counter, linked int, ok bool) {
+	p.mu.RLock()
+	c := p.conns[key{netFlow, tcpFlow}]
+	p.mu.RUnlock()
+	if c == nil {
+		return 0, 0, false
+	}
+	c.mu.Lock()
+	defer c.mu.Unlock()
+	for pg := c.first; pg != nil; pg = pg.next {
+		linked++
+	}
+	return c.pages, linked, true
+}
+
+// VerifPagesUsed returns the number of pages handed out by the assembler's page
+// cache and not yet returned.
+func (a *Assembler) VerifPagesUsed() int { return a.pc.used }
